@@ -164,7 +164,7 @@ def d3(chk, prog):
         bins = make_ga("CopyNumArray", rows, {"sample_id": "S"}, index="any", exact=True)
         segs = make_ga("CopyNumArray", [dict(chromosome="chr1", start=Term.sym("S0"), end=Term.sym("E0"), gene="-", log2=Term.sym("L0"), probes=4),
                                         dict(chromosome="chr1", start=Term.sym("S1"), end=Term.sym("E1"), gene="-", log2=Term.sym("L1"), probes=4)],
-                       {"sample_id": "S"}, exact=True)
+                       {"sample_id": "S"}, exact=True, labels=[0, 0])          # row labels may repeat (haar concatenates per-chromosome tables as they are)
         model = Model()
         seen = {}
         segs_frame = segs.data
@@ -258,13 +258,14 @@ def d3b(chk, prog):
     fi = prog.fn("cnvlib.segmentation._do_segmentation")
     tb = Table(chk, "filter-cascade", "_do_segmentation: rows handed to the segmenter (skip_low x skip_outliers x min_weight)", fi.loc(), fi.qn)
     kinds = ["normal", "lowcov", "outlier", "zero-weight", "light", "normal2"]
-    for skip_low, skip_out, min_weight in itertools.product([False, True], [0, 10], [0, Fr(1, 2)]):
+    for skip_low, skip_out, min_weight, low_by in itertools.product([False, True], [0, 10], [0, Fr(1, 2)], ["placeholder log2", "zero depth"]):
         W.reset()
         rows = []
         for i, k in enumerate(kinds):
-            lg = Term.sym(f"v{i}", -INF, -16) if k == "lowcov" else Term.sym(f"v{i}", -10, 10)
+            # a null-coverage bin: the placeholder log2 (< -15), or depth 0 with an ordinary log2
+            lg = Term.sym(f"v{i}", -INF, -16) if (k == "lowcov" and low_by == "placeholder log2") else Term.sym(f"v{i}", -10, 10)
             w = {"zero-weight": Fr(0), "light": Fr(1, 4)}.get(k, Fr(9, 10))
-            rows.append(dict(chromosome="chr1", start=i * 100, end=i * 100 + 100, gene=k, log2=lg, depth=Term.sym(f"d{i}", 1, INF), weight=w))
+            rows.append(dict(chromosome="chr1", start=i * 100, end=i * 100 + 100, gene=k, log2=lg, depth=(0 if (k == "lowcov" and low_by == "zero depth") else Term.sym(f"d{i}", 1, INF)), weight=w))
         arr = make_ga("CopyNumArray", rows, {"sample_id": "S"}, index="any", exact=True)
         model = Model()
         seen = {}
@@ -279,11 +280,11 @@ def d3b(chk, prog):
         model.prims["cnvlib.segmentation.none.segment_none"] = seg_none
         model.prims["cnvlib.segmentation.transfer_fields"] = lambda it, segarr, cnarr, *a, **k: segarr
         it = Interp(prog, model)
-        out = tb.guard(lambda: it.run(fi.qn, [arr, "none", None, None, None, skip_low, skip_out, min_weight]), f"skip_low={skip_low} skip_outliers={skip_out} min_weight={min_weight}")
+        out = tb.guard(lambda: it.run(fi.qn, [arr, "none", None, None, None, skip_low, skip_out, min_weight]), f"skip_low={skip_low} skip_outliers={skip_out} min_weight={min_weight} low by {low_by}")
         if out is None:
             continue
         want = [k for k in kinds if not (skip_low and k == "lowcov") and not (skip_out and k == "outlier") and not (k == "zero-weight") and not (min_weight and k == "light")]
-        tb.cell(seen.get("bins") == want and arr.data.n == len(kinds), dict(skip_low=skip_low, skip_outliers=skip_out, min_weight=str(min_weight), bins_segmented=seen.get("bins"), want=want))
+        tb.cell(seen.get("bins") == want and arr.data.n == len(kinds), dict(skip_low=skip_low, skip_outliers=skip_out, min_weight=str(min_weight), null_bin_by=low_by, bins_segmented=seen.get("bins"), want=want))
     tb.done("a bin removed by one filter is brought back by another (or a surviving bin is dropped): probes would not count the surviving bins")
 
 
@@ -563,5 +564,6 @@ MUTANTS = [
         (_S, "        filtered_cn = filtered_cn[~weight_too_low]", "        filtered_cn = cnarr[~weight_too_low]")]),
     dict(name="skip_low not applied", file=_S, old="    if skip_low:\n        filtered_cn = filtered_cn.drop_low_coverage(verbose=False)\n", new=""),
     dict(name="zero-weight bins kept", file=_S, old='        weight_too_low = (filtered_cn["weight"] == 0).fillna(True)', new='        weight_too_low = (filtered_cn["weight"] < 0).fillna(True)'),
-    dict(name="twin: stretch through .loc on the first label", file=_S, old='    segments.data.iloc[0, segments.data.columns.get_loc("start")] = bins_start\n', new='    segments.data.loc[segments.data.index[0], "start"] = bins_start\n', expect="silent"),
+    # (once listed as a twin; it is not: haar concatenates per-chromosome tables without renumbering, so the first label can repeat -- seeded C03g)
+    dict(name="stretch through .loc on the first label (labels repeat after haar's concat)", file=_S, old='    segments.data.iloc[0, segments.data.columns.get_loc("start")] = bins_start\n', new='    segments.data.loc[segments.data.index[0], "start"] = bins_start\n'),
 ]
